@@ -4,7 +4,6 @@ import (
 	"fmt"
 	"math"
 	"sort"
-	"strings"
 
 	"verif/model"
 )
@@ -147,8 +146,7 @@ func (c *conf) value(t model.TypeRef, v interface{}, g *group, at string) string
 				return fmt.Sprintf("%s: %v (%T) is not a Boolean", at, v, v)
 			}
 		default:
-			sv, ok := v.(string)
-			if !ok || !strings.HasPrefix(sv, "S:") {
+			if _, ok := v.(string); !ok {
 				return fmt.Sprintf("%s: %v is not a serialisation of custom scalar %s", at, v, t.Name)
 			}
 		}
